@@ -61,6 +61,19 @@ field Reader.reader
     ensures[eof]    position == recPos(self.gfile, recN(self.gfile)) && tailClean(self.gfile) ==> is(err, io.EOF)
     ensures[damaged] position == recPos(self.gfile, recN(self.gfile)) && !tailClean(self.gfile) ==> is(err, ErrCorrupted) && !is(err, io.EOF)
 
+// ASSUMED (I/O): a reader opened on a path sees the content of the file at that path
+func OpenReaderMem
+    flags assumed
+    ensures err == nil ==> r != nil && fresh(r) && r.gfile == fsContent[path]
+    ensures err != nil ==> ioerr(err) || is(err, ErrCorrupted)
+func OpenReader
+    flags assumed
+    ensures err == nil ==> r != nil && fresh(r) && r.gfile == fsContent[path]
+    ensures err != nil ==> ioerr(err) || is(err, ErrCorrupted)
+func (*Reader).Close
+    flags assumed
+    ensures err != nil ==> ioerr(err)
+
 func (*Reader).Consume
     requires wfFile(r.gfile)
     requires[count] 0 <= maxCount && maxCount <= 1048576
